@@ -170,5 +170,24 @@ def _caller_establishes(ctx, f, call):
                         return "the only caller (%s) calls it in the else-arm of `%s`" % (cs.func.short, norm(par.test))
                     if isinstance(c.ops[0], ast.In) and any(cur is y for y in ast.walk(par.body)):
                         return "the only caller (%s) calls it under `%s`" % (cs.func.short, norm(par.test))
+        if isinstance(par, ast.If):
+            # statement form of the same guard: the call sits in the arm where the needle is present
+            for c in ([par.test] if isinstance(par.test, ast.Compare) else par.test.values if isinstance(par.test, ast.BoolOp)
+                      and isinstance(par.test.op, ast.And) else []):
+                if isinstance(c, ast.Compare) and len(c.ops) == 1 and _fold_txt(ctx, cs.func, c.left) == needle \
+                        and norm(c.comparators[0]) == norm(arg):
+                    if isinstance(c.ops[0], ast.In) and any(cur is s_ for s_ in par.body):
+                        return "the only caller (%s) calls it under `if %s`" % (cs.func.short, norm(par.test))
+                    if isinstance(c.ops[0], ast.NotIn) and isinstance(par.test, ast.Compare) and any(cur is s_ for s_ in par.orelse):
+                        return "the only caller (%s) calls it in the else-arm of `if %s`" % (cs.func.short, norm(par.test))
+        # guard clause before the call: `if needle not in arg: return ...` earlier in the same block
+        for field in ("body", "orelse"):
+            blk = getattr(par, field, None)
+            if isinstance(blk, list) and any(cur is s_ for s_ in blk):
+                for prev in blk[:[i for i, s_ in enumerate(blk) if s_ is cur][0]]:
+                    if isinstance(prev, ast.If) and not prev.orelse and prev.body and isinstance(prev.body[-1], (ast.Return, ast.Raise, ast.Continue)) \
+                            and isinstance(prev.test, ast.Compare) and len(prev.test.ops) == 1 and isinstance(prev.test.ops[0], ast.NotIn) \
+                            and _fold_txt(ctx, cs.func, prev.test.left) == needle and norm(prev.test.comparators[0]) == norm(arg):
+                        return "the only caller (%s) leaves before the call when `%s`" % (cs.func.short, norm(prev.test))
         cur = par
     return None
